@@ -91,7 +91,7 @@ class NpModuleEnv(ModuleEnv):
         return super().lookup(name, eng)
 
     def attr_model(self, base, attr, eng, st):
-        if isinstance(base, VRec) and base.name == 'arr':
+        if isinstance(base, VRec) and base.name in ('arr', 'carr'):
             f = base.fields
             if attr == 'shape':
                 d = eng.decide(st, f['ndim'].t == 1)
@@ -107,7 +107,7 @@ class NpModuleEnv(ModuleEnv):
                 if d2 is None:
                     raise ForkReq(f['ndim'].t == 2)
                 return VUnknown('shape of array with ndim not in {1,2}')
-            if attr == 'flags':
+            if attr == 'flags' and 'writeable' in f:
                 return VConst(('flags', base))
             if attr == '__class__':
                 return VConst(('attr', ('module', 'numpy'), 'ndarray'))
